@@ -5,6 +5,7 @@ import (
 	"fmt"
 	"os"
 	"path/filepath"
+	"sort"
 	"strings"
 	"sync"
 	"syscall"
@@ -44,14 +45,29 @@ type clusterSim struct {
 	reaping      int
 	actors       int // running application goroutines
 
+	// The writer keeps its connection to a node open between transactions (what
+	// an application does) in half of the runs; in the other half every
+	// transaction comes from a fresh connection (a fresh process). A connection
+	// that stays keeps the wal-index alive, carries nCkpt and holds SHARED on a
+	// WAL database, also across role changes of its node.
+	persist bool
+	pool    map[string]*pooledConn
+
 	// oracle switches
 	checkReaders bool
 	oraclePrefix string
 }
 
+type pooledConn struct {
+	c     *Conn
+	store *litefs.Store
+}
+
 func newClusterSim(r *Run, nNodes int, prefix string) *clusterSim {
 	t := r.Tape
-	cs := &clusterSim{r: r, ims: NewImageStore(), latest: map[string]ltx.Pos{}, down: map[int]string{}, oraclePrefix: prefix, checkReaders: true}
+	cs := &clusterSim{r: r, ims: NewImageStore(), latest: map[string]ltx.Pos{}, down: map[int]string{}, oraclePrefix: prefix, checkReaders: true, pool: map[string]*pooledConn{}}
+	cs.persist = t.Chance(1, 2)
+	r.Cfg["persistent_conn"] = cs.persist
 	cs.pageSize = pickPageSize(t)
 	if cs.pageSize > 8192 && !r.Thorough() {
 		cs.pageSize = 4096
@@ -149,12 +165,49 @@ func (cs *clusterSim) writerLoop(t *Tape) {
 func (cs *clusterSim) writeOnce(p *Node, db string, t *Tape) {
 	r := cs.r
 	store := p.Store
-	c := cs.connFor(p, db, t)
-	if e := c.Open(); e != 0 {
-		r.Count("writer.open-failed")
-		return
+	key := p.Name + "/" + db
+	// the application's connections on nodes that are no longer written to are
+	// closed before it writes elsewhere (an idle WAL connection holds SHARED for
+	// good, and LiteFS needs that lock exclusively once a replicated
+	// transaction has taken the database out of WAL mode)
+	if len(cs.pool) > 0 {
+		var stale []string
+		for k := range cs.pool {
+			if !strings.HasPrefix(k, p.Name+"/") {
+				stale = append(stale, k)
+			}
+		}
+		sort.Strings(stale)
+		for _, k := range stale {
+			cs.pool[k].c.Close()
+			delete(cs.pool, k)
+		}
 	}
-	defer c.Close()
+	var c *Conn
+	if pc := cs.pool[key]; pc != nil {
+		delete(cs.pool, key)
+		if pc.store == store && p.Up && !p.Exited {
+			c = pc.c
+			r.Count("writer.conn-reused")
+		} else {
+			pc.c.Close() // the process it talked to is gone
+		}
+	}
+	if c == nil {
+		c = cs.connFor(p, db, t)
+		if e := c.Open(); e != 0 {
+			r.Count("writer.open-failed")
+			return
+		}
+	}
+	keep := false
+	defer func() {
+		if keep && cs.persist && p.Store == store && p.Up && !p.Exited {
+			cs.pool[key] = &pooledConn{c: c, store: store}
+		} else {
+			c.Close()
+		}
+	}()
 	// the committed image on this node right now
 	var cur *Image
 	var pos ltx.Pos
@@ -190,6 +243,24 @@ func (cs *clusterSim) writeOnce(p *Node, db string, t *Tape) {
 	if cur.N() > 0 {
 		h, _, _ := decodeDBHeader(cur.Pages[0])
 		isWAL = h.WAL
+	}
+	if !isWAL && c.wal != nil {
+		// the database left WAL mode behind this connection's back (replication
+		// from another primary): the application reconnects
+		c.Close()
+		c = cs.connFor(p, db, t)
+		if e := c.Open(); e != 0 {
+			r.Count("writer.open-failed")
+			return
+		}
+		c.OnFinalized = func() {
+			if d := store.DB(db); d != nil {
+				endPos, endSeen = d.Pos(), true
+			}
+		}
+		c.OnNewImage = func(im *Image) {
+			cs.ims.Put(db, ltx.Pos{TXID: next, PostApplyChecksum: ltx.Checksum(im.Checksum())}, im)
+		}
 	}
 	switch {
 	case cur.N() == 0:
@@ -238,6 +309,7 @@ func (cs *clusterSim) writeOnce(p *Node, db string, t *Tape) {
 	if res.Outcome != OutCommit && res.Outcome != OutRollback && res.Outcome != OutLockOnly {
 		return
 	}
+	keep = t.Chance(4, 5)
 	if !endSeen {
 		return
 	}
